@@ -48,6 +48,25 @@ fn install_hook() {
         g.get_or_insert_with(Default::default).insert(std::thread::current().id(), format!("{file}: {}", normalise_digits(&msg)));
     }));
 }
+static HANGS: std::sync::atomic::AtomicUsize = std::sync::atomic::AtomicUsize::new(0);
+/// Run `f` on a helper thread; a call that does not return within 20 s (normal: milliseconds) is a `Hang`
+/// (the thread is leaked). Panics are captured per thread.
+fn timed<T: Send + 'static>(f: impl FnOnce() -> T + Send + 'static) -> Outcome<T> {
+    let (tx, rx) = std::sync::mpsc::channel();
+    std::thread::Builder::new()
+        .stack_size(16 << 20)
+        .spawn(move || {
+            let _ = tx.send(guard(f));
+        })
+        .expect("spawn");
+    match rx.recv_timeout(std::time::Duration::from_secs(20)) {
+        Ok(r) => r,
+        Err(_) => {
+            HANGS.fetch_add(1, std::sync::atomic::Ordering::SeqCst);
+            Outcome::Hang
+        }
+    }
+}
 fn guard<T>(f: impl FnOnce() -> T) -> Outcome<T> {
     match std::panic::catch_unwind(std::panic::AssertUnwindSafe(f)) {
         Ok(v) => Outcome::Done(v),
@@ -140,38 +159,64 @@ fn main() {
         if let Err(e) = b.build(&spath) {
             tool_error(&format!("case {case}: cannot build the source archive: {e:?}"));
         }
-        let mut sa = Archive::open(&spath).unwrap_or_else(|e| tool_error(&format!("case {case}: source does not open: {e:?}")));
-        let listed: Vec<String> = sa.list().unwrap_or_else(|e| tool_error(&format!("case {case}: source list: {e:?}"))).into_iter().map(|e| e.name).collect();
-        let hetbet = sa.het_table().is_some() && sa.bet_table().is_some();
-        // tokens of what the source archive itself reads for every listed name
-        let mut toks = Map::new();
-        let mut enc: Vec<String> = vec![];
-        let mut srcbad: Vec<String> = vec![];
-        for n in &listed {
-            match sa.read_file(n) {
-                Ok(d) => {
-                    toks.insert(n.clone(), json!(tok(&d)));
-                }
-                Err(_) => {
-                    toks.insert(n.clone(), json!("unreadable"));
-                    srcbad.push(n.clone());
-                }
-            }
-            if let Ok(Some(fi)) = sa.find_file(n) {
-                if fi.is_encrypted() {
-                    enc.push(n.clone());
-                }
-            }
+        // everything that touches the code under test runs under a watchdog: a call that does not return is data
+        if HANGS.load(std::sync::atomic::Ordering::SeqCst) >= 6 {
+            // several calls are already spinning in leaked threads: do not start more work on this tree
+            evs.push(json!({"ev":"Reset","case":case,"ver":gi(src,"ver"),"at":gb(src,"at"),"empty":gb(src,"empty"),"sigfile":with_sig,"sbs":sbs,"edge":edge,
+                "srcbad":["<not-run-after-hangs>"],"hetbet":false,"listed":[],"tok":{},"enc":[],"sig":[]}));
+            blocks.lock().unwrap()[ci] = Some(evs);
+            return;
         }
-        // the source archive must hold what was given to the builder; if it does not, that is recorded (the trace
-        // spec rejects the case with reason `source-not-as-built`: the break is observable through the rebuild
-        // pipeline although it originates in the builder / codec, i.e. overlaps C01 / C03)
-        for f in &files {
-            if toks.get(f.name).and_then(|t| t.as_str()) != Some(tok(&f.data).as_str()) && !srcbad.iter().any(|x| x == f.name) {
-                srcbad.push(f.name.to_string());
+        let expect: Vec<(String, String)> = files.iter().map(|f| (f.name.to_string(), tok(&f.data))).collect();
+        let sp = spath.clone();
+        let inspected = timed(move || -> Result<(Vec<String>, bool, Map<String, Value>, Vec<String>, Vec<String>), String> {
+            let mut sa = Archive::open(&sp).map_err(|e| format!("open: {e:?}"))?;
+            let listed: Vec<String> = sa.list().map_err(|e| format!("list: {e:?}"))?.into_iter().map(|e| e.name).collect();
+            let hetbet = sa.het_table().is_some() && sa.bet_table().is_some();
+            // tokens of what the source archive itself reads for every listed name
+            let mut toks = Map::new();
+            let mut enc: Vec<String> = vec![];
+            let mut srcbad: Vec<String> = vec![];
+            for n in &listed {
+                match sa.read_file(n) {
+                    Ok(d) => {
+                        toks.insert(n.clone(), json!(tok(&d)));
+                    }
+                    Err(_) => {
+                        toks.insert(n.clone(), json!("unreadable"));
+                        srcbad.push(n.clone());
+                    }
+                }
+                if let Ok(Some(fi)) = sa.find_file(n) {
+                    if fi.is_encrypted() {
+                        enc.push(n.clone());
+                    }
+                }
             }
-        }
-        drop(sa);
+            // the source archive must hold what was given to the builder; if it does not, that is recorded (the
+            // trace spec rejects the case with reason `source-not-as-built`: the break is observable through the
+            // rebuild pipeline although it originates in the builder / codec, i.e. overlaps C01 / C03)
+            for (name, t) in &expect {
+                if toks.get(name).and_then(|x| x.as_str()) != Some(t.as_str()) && !srcbad.iter().any(|x| x == name) {
+                    srcbad.push(name.clone());
+                }
+            }
+            Ok((listed, hetbet, toks, enc, srcbad))
+        });
+        let (listed, hetbet, toks, enc, srcbad) = match inspected {
+            Outcome::Done(Ok(v)) => v,
+            other => {
+                let why = match other {
+                    Outcome::Done(Err(e)) => format!("<{e}>"),
+                    Outcome::Panic(m) => format!("<panic {m}>"),
+                    _ => "<hang>".to_string(),
+                };
+                evs.push(json!({"ev":"Reset","case":case,"ver":gi(src,"ver"),"at":gb(src,"at"),"empty":gb(src,"empty"),"sigfile":with_sig,"sbs":sbs,"edge":edge,
+                    "srcbad":[why],"hetbet":false,"listed":[],"tok":{},"enc":[],"sig":[]}));
+                blocks.lock().unwrap()[ci] = Some(evs);
+                return;
+            }
+        };
         let sig: Vec<String> = listed.iter().filter(|n| n.as_str() == "(signature)" || n.as_str() == "(strong signature)").cloned().collect();
         evs.push(json!({"ev":"Reset","case":case,"ver":gi(src,"ver"),"at":gb(src,"at"),"empty":gb(src,"empty"),"sigfile":with_sig,"sbs":sbs,"edge":edge,"srcbad":srcbad,"hetbet":hetbet,
             "listed":listed,"tok":Value::Object(toks),"enc":enc,"sig":sig}));
@@ -195,7 +240,8 @@ fn main() {
             override_block_size: if bs < 0 { None } else { Some(bs as u16) },
             list_only: gb(o, "listOnly"),
         };
-        let r = guard(|| rebuild_archive(&spath, &tpath, opts, None));
+        let (sp, tp) = (spath.clone(), tpath.clone());
+        let r = timed(move || rebuild_archive(&sp, &tp, opts, None));
         let texists = tpath.exists();
         let mut ev = json!({"ev":"Rebuild","case":case,"opts":o.clone(),"res":"","msg":"","source":-1,"extracted":-1,"skipped":-1,"verified":false,"tformat":0,"texists":texists,"tver":0});
         match &r {
@@ -216,40 +262,47 @@ fn main() {
             Outcome::Hang => ev["res"] = json!("hang"),
         }
         // ---- what is in the target
-        let ta = if texists { guard(|| Archive::open(&tpath)) } else { Outcome::Done(Err(Error::invalid_format("no target"))) };
-        let mut ta = match ta {
-            Outcome::Done(Ok(t)) => Some(t),
-            _ => None,
-        };
-        if let Some(t) = &ta {
-            ev["tver"] = json!(vernum(t.header().format_version));
-        }
-        evs.push(ev);
         let src_listed: Vec<String> = evs[0]["listed"].as_array().unwrap().iter().map(|x| x.as_str().unwrap().to_string()).collect();
-        for n in &src_listed {
-            let (res, t) = match ta.as_mut() {
-                None => ("noarchive".to_string(), "none".to_string()),
-                Some(t) => match guard(|| t.read_file(n)) {
-                    Outcome::Done(Ok(d)) => ("ok".to_string(), tok(&d)),
-                    Outcome::Done(e) => (classify(&e), "none".to_string()),
-                    _ => ("panic".to_string(), "none".to_string()),
-                },
-            };
+        let tp = tpath.clone();
+        let names = src_listed.clone();
+        let tin = if texists {
+            timed(move || {
+                let mut reads: Vec<(String, String)> = vec![];
+                let mut ta = match guard(|| Archive::open(&tp)) {
+                    Outcome::Done(Ok(t)) => t,
+                    _ => return (0i64, names.iter().map(|_| ("noarchive".to_string(), "none".to_string())).collect::<Vec<_>>(), "noarchive".to_string(), vec![]),
+                };
+                let tver = vernum(ta.header().format_version);
+                for n in &names {
+                    reads.push(match guard(|| ta.read_file(n)) {
+                        Outcome::Done(Ok(d)) => ("ok".to_string(), tok(&d)),
+                        Outcome::Done(e) => (classify(&e), "none".to_string()),
+                        _ => ("panic".to_string(), "none".to_string()),
+                    });
+                }
+                let (lres, lnames) = match guard(|| ta.list()) {
+                    Outcome::Done(Ok(l)) => ("ok".to_string(), l.into_iter().map(|e| e.name).collect::<Vec<_>>()),
+                    Outcome::Done(Err(e)) => (format!("err:{}", variant_name(&e)), vec![]),
+                    _ => ("panic".to_string(), vec![]),
+                };
+                (tver, reads, lres, lnames)
+            })
+        } else {
+            Outcome::Done((0i64, src_listed.iter().map(|_| ("noarchive".to_string(), "none".to_string())).collect(), "noarchive".to_string(), vec![]))
+        };
+        let (tver, reads, lres, lnames) = match tin {
+            Outcome::Done(v) => v,
+            _ => (0i64, src_listed.iter().map(|_| ("hang".to_string(), "none".to_string())).collect(), "hang".to_string(), vec![]),
+        };
+        ev["tver"] = json!(tver);
+        evs.push(ev);
+        for (n, (res, t)) in src_listed.iter().zip(reads.into_iter()) {
             evs.push(json!({"ev":"TRead","case":case,"n":n,"res":res,"tok":t}));
         }
-        let (lres, lnames) = match ta.as_mut() {
-            None => ("noarchive".to_string(), vec![]),
-            Some(t) => match guard(|| t.list()) {
-                Outcome::Done(Ok(l)) => ("ok".to_string(), l.into_iter().map(|e| e.name).collect::<Vec<_>>()),
-                Outcome::Done(Err(e)) => (format!("err:{}", variant_name(&e)), vec![]),
-                _ => ("panic".to_string(), vec![]),
-            },
-        };
         evs.push(json!({"ev":"TList","case":case,"res":lres,"names":lnames}));
-        drop(ta);
         let cmp = if texists {
             let (sp, tp): (std::path::PathBuf, std::path::PathBuf) = (spath.clone(), tpath.clone());
-            guard(move || compare_archives(sp.as_path(), tp.as_path(), true, true, false, true, None))
+            timed(move || compare_archives(sp.as_path(), tp.as_path(), true, true, false, true, None))
         } else {
             Outcome::Done(Err(Error::invalid_format("no target")))
         };
